@@ -608,6 +608,15 @@ class Writer:
                 else:
                     xs.append(("hole", fa["args"][p["arg"]], fn, p.get("trait"), p))
             return ("seq", xs)
+        if k == "mcall" and n["name"] in ("try_for_each", "for_each") and len(n["args"]) == 1 and not self.has_sink(n["recv"]):
+            # `<iter>.try_for_each(|x| <writes>)?`  ==  `for x in <iter> { <writes>?; }` (an Err leaves through the `?` on the whole call)
+            cl = H.peel(n["args"][0])
+            if cl.get("k") == "closure" and len(cl.get("params") or []) == 1:
+                it = n["recv"]
+                while it.get("k") == "mcall" and it["name"] in ("iter", "into_iter", "iter_mut") and not it["args"]:
+                    it = it["recv"]
+                loop = {"k": "for", "pat": cl["params"][0], "iter": it, "body": cl["body"], "sp": n.get("sp"), "ty": "()"}
+                return ("rep", loop, self.term(fn, cl["body"], depth), fn)
         if k in ("call", "mcall"):
             c = n.get("callee") or {}
             key = c.get("inst_key") or c.get("key")
